@@ -48,13 +48,23 @@ static std::string CanonPath(const W & w, const std::string & p)
    return "/H/" + itos((long)id - (long)w.RealID(0)) + p.substr(j);
 }
 
+// a session clause is a decimal session index or a comma list of them; delta = +RealID(0) / -RealID(0)
+static std::string ShiftSessionClause(const std::string & cl, long delta)
+{
+   if ((cl.empty())||(cl.find_first_not_of("0123456789,") != std::string::npos)) return cl;
+   std::vector<std::string> seg = Split(cl, ',');
+   std::string r;
+   for (size_t i=0; i<seg.size(); i++) {if (i) r += ","; r += seg[i].empty() ? std::string("") : itos(atol(seg[i].c_str()) + delta);}
+   return r;
+}
+
 // script pattern -> pattern for the real server (host clause H, session clause = index)
 static std::string RealPattern(const W & w, const std::string & pat)
 {
    if ((pat.empty())||(pat[0] != '/')) return pat;
    std::vector<std::string> cl = Split(pat.substr(1), '/');
    if ((cl.size() >= 1)&&(cl[0] == "H")) cl[0] = "_unknown_";
-   if ((cl.size() >= 2)&&(!cl[1].empty())&&(cl[1].find_first_not_of("0123456789") == std::string::npos)) cl[1] = itos((long)w.RealID(0) + atol(cl[1].c_str()));
+   if (cl.size() >= 2) cl[1] = ShiftSessionClause(cl[1], (long)w.RealID(0));
    std::string r;
    for (size_t i=0; i<cl.size(); i++) r += "/" + cl[i];
    return r;
@@ -263,7 +273,7 @@ static std::string CanonPattern(const W & w, const std::string & realPat)   // i
 {
    std::vector<std::string> cl = Split(realPat, '/');
    if ((cl.size() >= 1)&&(cl[0] == "_unknown_")) cl[0] = "H";
-   if ((cl.size() >= 2)&&(!cl[1].empty())&&(cl[1].find_first_not_of("0123456789") == std::string::npos)) cl[1] = itos(atol(cl[1].c_str()) - (long)w.RealID(0));
+   if (cl.size() >= 2) cl[1] = ShiftSessionClause(cl[1], -(long)w.RealID(0));
    std::string r;
    for (size_t i=0; i<cl.size(); i++) r += (i ? "/" : "") + cl[i];
    return r;
